@@ -792,7 +792,10 @@ impl Engine for ShellSim {
         }
         // 1c. while an RTT probe is outstanding on some link: an echo whose stamp sits on a boundary of the
         //     sampling rule (future by <= 10 s, same ms, just over / just under 10 s old) or is plausible
-        if let Some(l) = (0..self.n).find(|i| self.conns[*i].rtt.waiting_for_keepalive_response) {
+        // (not in the quiet phase of a repair schedule: that phase is what the rejoin bound is measured over, and a
+        //  stray datagram is interference)
+        let in_quiet = self.profile == "repair" && (self.quiet_on || self.steps_done * 10 >= self.steps_total * 5);
+        if let Some(l) = (0..self.n).find(|i| self.conns[*i].rtt.waiting_for_keepalive_response).filter(|_| !in_quiet) {
             if rng.random_range(0..30) == 0 {
                 let ts: u64 = match rng.random_range(0..6) {
                     0 => self.now + rng.random_range(1..10_000),
